@@ -257,7 +257,12 @@ fn run_case(case: &Case, ev: &Evidence) -> CaseResult {
                         w.parties[party_id].pstore.put(q, &[if q == b"psk0" { 7 } else { 8 }; 32]);
                     }
                 }
-                let kp = if kind == Kind::WrongSuiteKeyPackage {
+                let kp = if kind == Kind::ExpiredKeyPackage {
+                    // a one-day key package issued ten days before the fake clock
+                    let p = &w.parties[party_id];
+                    let c = build_client_with_lifetime(p.crypto.clone(), p.idp.clone(), p.gstore.clone(), p.kstore.clone(), p.pstore.clone(), Default::default(), p.identity.clone(), p.signer.clone(), suite, 86400);
+                    guard(|| c.generate_key_package_message(Default::default(), Default::default(), Some(MlsTime::from(T0 - 10 * 86400))))
+                } else if kind == Kind::WrongSuiteKeyPackage {
                     let other = if suite == 1 { 3 } else { 1 };
                     let p = &w.parties[party_id];
                     let c = build_client(p.crypto.clone(), p.idp.clone(), p.gstore.clone(), p.kstore.clone(), p.pstore.clone(), Default::default(), p.identity.clone(), p.signer.clone(), other);
